@@ -140,3 +140,10 @@ def d3(cx: Cx, ob: Ob) -> None:
                         tg2 = o.tag(recv[1])
                         if tg2 is not None and tg2[0] == "CB":
                             ob.violate(fn.qualname, where(fn, ev.line), f"{fn.name} mutates `{show(recv)[:40]}` of its converter input in place (.{name})", detail=f"mutate-state:{recv[2]}.{name}")
+
+
+def check_no_aliasing(cx: Cx, ob: Ob) -> None:
+    """D1-D3 together, for properties that need 'no converter shares records with another'."""
+    d1(cx, ob)
+    d2(cx, ob)
+    d3(cx, ob)
